@@ -220,6 +220,16 @@ func main() {
 			obls = append(obls, enc.obls...)
 			}
 		}
+		if re == nil || re.MatchString("audit") {
+			ao, aerrs := p.runAudits(*prop)
+			obls = append(obls, ao...)
+			rep.Errors = append(rep.Errors, aerrs...)
+			for _, ar := range p.audits {
+				if *prop == "" || contains(ar.a.Props, *prop) {
+					rep.Functions = append(rep.Functions, "audit atomic "+ar.a.TypeName+"."+ar.a.Field+" (every function of "+ar.pkg.Pkg.Name()+")")
+				}
+			}
+		}
 		for _, lr := range p.lemmas {
 			if *prop != "" && !contains(lr.l.Props, *prop) {
 				continue
